@@ -63,7 +63,9 @@ def rewrite_implies(t):
                     d -= 1
                 j += 1
             inner = t[i + 1:j - 1]
-            out.append('(' + (rewrite_implies(inner) if '==>' in inner else inner) + ')')
+            if '==>' in inner:
+                inner = ', '.join(rewrite_implies(part.strip()) for part in split_commas(inner))
+            out.append('(' + inner + ')')
             i = j
             continue
         out.append(ch)
@@ -71,3 +73,36 @@ def rewrite_implies(t):
     return ''.join(out)
 
 
+
+
+def split_commas(t):
+    """split on commas at bracket depth 0 (outside string literals)"""
+    parts, depth, cur, ins = [], 0, [], None
+    i = 0
+    while i < len(t):
+        ch = t[i]
+        if ins:
+            cur.append(ch)
+            if ch == '\\' and i + 1 < len(t):
+                cur.append(t[i + 1])
+                i += 2
+                continue
+            if ch == ins:
+                ins = None
+        elif ch in '"\'':
+            ins = ch
+            cur.append(ch)
+        elif ch in '([{':
+            depth += 1
+            cur.append(ch)
+        elif ch in ')]}':
+            depth -= 1
+            cur.append(ch)
+        elif ch == ',' and depth == 0:
+            parts.append(''.join(cur))
+            cur = []
+        else:
+            cur.append(ch)
+        i += 1
+    parts.append(''.join(cur))
+    return parts
